@@ -113,10 +113,13 @@ class STIXdatetime(dt.datetime):
         return "'%s'" % format_datetime(self)
 
     def __deepcopy__(self, memo):
-        # Instances are immutable.  (The default implementation re-creates
-        # the object from datetime's pickle state, which loses the precision
-        # metadata.)
-        return self
+        # The default implementation re-creates the object from datetime's
+        # pickle state, which loses the precision metadata.  The metadata are
+        # plain (assignable) attributes, so a copy must not share them.
+        return STIXdatetime(
+            self, precision=self.precision,
+            precision_constraint=self.precision_constraint,
+        )
 
 
 def deduplicate(stix_obj_list):
